@@ -475,6 +475,7 @@ def run(F, rep, tier):
     rule_r6(F, rep)
     from . import c04_lit
     c04_lit.rule(F, rep)
+    c04_lit.rule_strict_flag(F, rep)
     rep.assume("the rewrite-invariance consequence (naming, identity functions, dead code) needs execution and is not "
                "decided; builtins' internal evaluation order is not decided")
     rep.trust("Jsonnet specification: laziness positions, transcribed as rules/c04.py:LAZY")
